@@ -457,6 +457,15 @@ class NP:
             return (A.IndexSet(lambda i: T.mk_ind(C(cc.fn(i))), cond.shape[0]),)
         return ewise(lambda c, a, b: T.mk_ite(C(c), P(a), P(b)), cond, lift(x), lift(y), dtype="real")
 
+    def count_nonzero(self, x, axis=None, **kw):
+        used("np.count_nonzero")
+        x = lift(x)
+        if not isinstance(x, Arr):
+            return T.mk_ind(T.cmp_cond("!=", P(x), ZERO)) if isinstance(x, Poly) else (T.mk_ind(C(x)) if isinstance(x, T.Cond) else int(bool(x)))
+        xf, isb = x.fn, x.dtype == "bool"
+        ind = Arr(x.shape, lambda *idx: T.mk_ind(C(xf(*idx)) if isb else T.cmp_cond("!=", P(xf(*idx)), ZERO)), "int", x.kind)
+        return ind.sum(axis=axis)
+
     def flatnonzero(self, x):
         used("np.flatnonzero")
         x = lift(x)
@@ -663,11 +672,32 @@ class NP:
         return A.matmul(xc, xc.T) / (n - 1)
 
     # ---- comparisons used by __eq__ helpers
-    def array_equal(self, a, b):
-        raise ModelError("np.array_equal")
+    def array_equal(self, a, b, **kw):
+        """same shape and every element equal"""
+        used("np.array_equal")
+        a, b = lift(a), lift(b)
+        if not isinstance(a, Arr) or not isinstance(b, Arr):
+            if isinstance(a, Arr) or isinstance(b, Arr):
+                raise ModelError("np.array_equal of an array and a scalar")
+            return T.cmp_cond("==", P(a), P(b))
+        if a.ndim != b.ndim or not all(A.dim_eq(x, y) for x, y in zip(a.shape, b.shape)):
+            return False
+        if a.ndim == 0:
+            return T.cmp_cond("==", P(a.fn()), P(b.fn()))
+        diff = ewise(lambda x, y: T.mk_ind(T.cmp_cond("!=", P(x), P(y))), a, b, dtype="real")
+        tot = diff.sum()
+        return T.cmp_cond("==", P(tot if not isinstance(tot, Arr) else tot.fn()), ZERO)
 
-    def allclose(self, *a, **k):
-        raise ModelError("np.allclose")
+    def allclose(self, a, b, rtol=1e-05, atol=1e-08, equal_nan=False):
+        """every element within atol + rtol*|b|"""
+        used("np.allclose")
+        c = self.isclose(a, b, rtol=rtol, atol=atol)
+        if not isinstance(c, Arr):
+            return c
+        if c.ndim == 0:
+            return C(c.fn())
+        bad = ewise(lambda x: T.mk_ind(T.c_not(C(x))), c, dtype="real").sum()
+        return T.cmp_cond("==", P(bad if not isinstance(bad, Arr) else bad.fn()), ZERO)
 
     def isclose(self, a, b, rtol=1e-05, atol=1e-08, equal_nan=False):
         used("np.isclose")
